@@ -15,6 +15,8 @@ THEOREMS = [
     "C16_stats_sample_order",
     "C16_wccn_sample_order",
     "C16_wccn_class_renaming",
+    "C16_isv_sample_order_and_renaming",
+    "C16_jfa_sample_order_and_renaming",
 ]
 CORR_OPS = ["rng_keys:equal_provenance_equal_model"]
 RULE = ("random histories of [np.random.seed(s) | np.random.normal(size=n) | fit(estimator, configuration, data, random_state)] in one "
@@ -170,8 +172,10 @@ def correspondence(ctx):
                 continue
             ctx.count("fit:" + op["est_name"])
             if isinstance(r, core.ImplError):
-                bad.append({"op": "rng_keys:equal_provenance_equal_model", "input": {"history": h}, "impl": repr(r)})
-                continue
+                # a fit that raises (e.g. a degenerate UBM) is not this property's business as long as it does so for every
+                # history with the same provenance: the exception type takes the place of the model digest
+                ctx.count("fit-raises:" + op["est_name"])
+                r = "raises:" + r.kind
             groups.setdefault(core.sha(k), []).append((k, r, op, h))
     for key, items in groups.items():
         digs = {r for _, r, _, _ in items}
@@ -222,7 +226,11 @@ def oracle(est, data, seed):
     X, y = data["X"], data["y"]
     base = core.impl(lambda: train(est, data, X, y, 3))
     if isinstance(base, core.ImplError):
-        return {"sig": f"fit-raises:{est}", "what": repr(base)}
+        # training fails on this data set (degenerate UBM, ...): outside this property, provided it fails the same way again
+        again = core.impl(lambda: train(est, data, X, y, 3))
+        if not isinstance(again, core.ImplError) or again.kind != base.kind:
+            return {"sig": f"depends-on-history:{est}", "what": f"{est}: first fit raised {base!r}, an identical second fit gave {again!r}"}
+        return None
     # sample order (samples stay with their labels; ISV/JFA from arrays: frames of one class stay in their class)
     perm = r.permutation(len(X))
     p = core.impl(lambda: train(est, data, X[perm], y[perm], 3))
